@@ -1088,6 +1088,22 @@ def r_graphbuild(ctx) -> RuleResult:
             return numbering(e.generators[0].iter, depth + 1)
         return None
 
+    # neither table may be filtered (a bond or atom dropped because of its data changes the molecule)
+    for n in own_walk(fn):
+        comp = None
+        if isinstance(n, (ast.Assign, ast.AnnAssign)) and isinstance(n.value, (ast.DictComp, ast.ListComp, ast.GeneratorExp, ast.SetComp)):
+            comp = n.value
+        elif isinstance(n, ast.Call) and isinstance(n.func, ast.Attribute) and n.func.attr in ("add_edges_from", "add_nodes_from") and n.args \
+                and isinstance(n.args[0], (ast.ListComp, ast.GeneratorExp)):
+            comp = n.args[0]
+        if comp is not None:
+            for g in comp.generators:
+                src = norm(g.iter)
+                if g.ifs and (atoms in src or bonds_p in src):
+                    res.inst(gfm.fq, short(comp), "fail")
+                    res.fail(Finding("R-GRAPHBUILD", gfm.module.rel, gfm.qualname, norm(comp),
+                                     f"{'bonds' if bonds_p in src else 'atoms'} are filtered by `{short(g.ifs[0], 50)}` before the graph is built: which {'pairs are bonded' if bonds_p in src else 'atoms exist'} depends on non-identity data",
+                                     line=comp.lineno))
     node_calls = [n for n in own_walk(fn) if isinstance(n, ast.Call) and isinstance(n.func, ast.Attribute) and n.func.attr in ("add_nodes_from", "add_node")]
     edge_calls = [n for n in own_walk(fn) if isinstance(n, ast.Call) and isinstance(n.func, ast.Attribute) and n.func.attr in ("add_edges_from", "add_edge")]
     if not node_calls or not edge_calls:
@@ -1146,4 +1162,49 @@ def r_graphbuild(ctx) -> RuleResult:
             if not ok2:
                 res.fail(Finding("R-GRAPHBUILD", gfm.module.rel, gfm.qualname, norm(r), "the returned graph keeps file / string indices as labels instead of 0..n-1", line=r.lineno))
     res.trusted = ["networkx.convert_node_labels_to_integers renumbers nodes and edges with one map (R-LIBSRC)"]
+    return res
+
+
+@rule("R-DISPATCH")
+def r_dispatch(ctx) -> RuleResult:
+    res = RuleResult("R-DISPATCH", "the molfile version is taken from the counts line (4th line) only; header and comment lines are read by nothing before the readers are entered")
+    disp = entry(ctx, "read_text")
+    readers = {f.fq for f in reader_entries(ctx).values()}
+    # functions of the dispatcher's closure that run before a reader is entered
+    pre = [disp]
+    for cs in sites(ctx, disp):
+        if cs.kind == "tucan" and cs.target.fq not in readers and cs.target.name != "graph_from_molecule":
+            pre += [ctx.cg.funcs[q] for q in ctx.cg.closure([cs.target.fq]) if q not in readers]
+    n = 0
+    for fi in pre:
+        fn = fi.node
+        # names that hold the list of lines: result of .splitlines() / parameters receiving it
+        line_lists = set()
+        for name, defs in assigned_names(fn).items():
+            for d in defs:
+                v = getattr(d, "value", None)
+                if isinstance(v, ast.Call) and isinstance(v.func, ast.Attribute) and v.func.attr in ("splitlines", "split", "readlines"):
+                    line_lists.add(name)
+        if fi is not disp:
+            line_lists |= set(params_of(fn)[:1])
+        for x in own_walk(fn):
+            if isinstance(x, ast.Subscript) and isinstance(x.value, ast.Name) and x.value.id in line_lists and isinstance(x.ctx, ast.Load):
+                n += 1
+                if isinstance(x.slice, ast.Slice):
+                    lo = try_const(ctx, fi, x.slice.lower) if x.slice.lower is not None else 0
+                    ok = isinstance(lo, int) and lo >= 3
+                    what = f"lines[{norm(x.slice)}]"
+                else:
+                    k = try_const(ctx, fi, x.slice)
+                    ok = isinstance(k, int) and k >= 3
+                    what = f"lines[{norm(x.slice)}]"
+                res.inst(fi.fq, f"{what} read before dispatch", "ok" if ok else "fail")
+                if not ok:
+                    res.fail(Finding("R-DISPATCH", fi.module.rel, fi.qualname, norm(x), f"{what} covers the title / program / comment lines: their text influences how the file is read", line=x.lineno))
+            if isinstance(x, (ast.For, ast.comprehension)) and isinstance(x.iter, ast.Name) and x.iter.id in line_lists:
+                n += 1
+                res.inst(fi.fq, f"iteration over all lines `{short(x.iter)}`", "fail")
+                res.fail(Finding("R-DISPATCH", fi.module.rel, fi.qualname, norm(x.iter), "all lines, including title / program / comment lines, are inspected before a reader is chosen", line=x.iter.lineno))
+    if n == 0:
+        raise AnalysisError("R-DISPATCH: the dispatcher no longer reads the version from the line list")
     return res
